@@ -51,7 +51,14 @@ type Node struct {
 	Captures bool   `json:"captures,omitempty"`
 	Rules    []Rule `json:"rules,omitempty"`
 	Kids     []Node `json:"kids,omitempty"`
+	// Wrap > 0: the widget returns its surface wrapped in a second surface
+	// of its own, Wrap columns wider (what list.Dynamic does for the item
+	// next to its cursor gutter). The widget is still one widget
+	Wrap int `json:"wrap,omitempty"`
 }
+
+// width of the node as its parent sees it
+func (n *Node) outerW() int { return n.W + n.Wrap }
 
 type Op struct {
 	K   string `json:"k"` // key custom mouse tfocusin tfocusout frame
@@ -222,6 +229,11 @@ func (n *node) Draw(ctx vxfw.DrawContext) (vxfw.Surface, error) {
 		ss.ZIndex = k.spec.Z
 		s.Children = append(s.Children, ss)
 	}
+	if n.spec.Wrap > 0 {
+		outer := vxfw.NewSurface(uint16(w+n.spec.Wrap), uint16(h), n.self)
+		outer.AddChild(n.spec.Wrap, 0, s)
+		return outer, nil
+	}
 	return s, nil
 }
 
@@ -354,9 +366,15 @@ func (m *model) under(col, row int) (chain []int, ambiguous bool) {
 	for {
 		chain = append(chain, n.ID)
 		var hit []*Node
+		// inside a wrapped node the children live in the inner surface; the
+		// gutter itself belongs to the node only
+		if n.Wrap > 0 && col < ax+n.Wrap {
+			return chain, ambiguous
+		}
+		ax += n.Wrap
 		for i := range n.Kids {
 			k := &n.Kids[i]
-			if col >= ax+k.Col && col < ax+k.Col+k.W && row >= ay+k.Row && row < ay+k.Row+k.H {
+			if col >= ax+k.Col && col < ax+k.Col+k.outerW() && row >= ay+k.Row && row < ay+k.Row+k.H {
 				hit = append(hit, k)
 			}
 		}
@@ -380,9 +398,15 @@ func (m *model) contains(w, col, row int) bool {
 	for _, id := range p {
 		n := m.nodes[id]
 		ax, ay = ax+n.Col, ay+n.Row
-		if col < ax || col >= ax+n.W || row < ay || row >= ay+n.H {
+		if col < ax || col >= ax+n.outerW() || row < ay || row >= ay+n.H {
 			return false
 		}
+		// its children are placed in the inner surface; the gutter is
+		// the node's alone
+		if n.Wrap > 0 && id != w && (col < ax+n.Wrap || col >= ax+n.Wrap+n.W) {
+			return false
+		}
+		ax += n.Wrap
 	}
 	return col >= 0 && row >= 0 && col < screenCols && row < screenRows
 }
@@ -681,6 +705,9 @@ func genTree(rt *rapid.T, overlap bool) (Node, []int) {
 	var gen func(depth, w, h int) Node
 	gen = func(depth, w, h int) Node {
 		n := Node{ID: next, W: w, H: h, Captures: rapid.Bool().Draw(rt, "captures")}
+		if next > 1 && rapid.IntRange(0, 5).Draw(rt, "wrap") == 3 {
+			n.Wrap = 2
+		}
 		ids = append(ids, next)
 		next++
 		if depth == 0 || w < 2 || h < 1 {
